@@ -451,7 +451,14 @@ pub fn check_outcome(o: &Outcome, ovh: usize, vsz: usize) -> Vec<Fail> {
     got_drops.sort();
     want_drops.sort();
     if !matches!(op, OpKind::It { forget: true, .. }) && got_drops != want_drops {
-        fail(&mut v, "C06", format!("{} dropped tokens {:?} where {:?} are due", op.text(), got_drops, want_drops));
+        // which objects leave (and are therefore dropped) is decided by the property that owns the
+        // operation's contents; C06 itself is about exactly-once and is checked on the token table
+        fail(&mut v, ex.set_prop, format!("{} dropped tokens {:?} where {:?} are due", op.text(), got_drops, want_drops));
+        let mut g = got_drops.clone();
+        g.dedup();
+        if g.len() != got_drops.len() || got_drops.iter().any(|t| returned.contains(t)) {
+            fail(&mut v, "C06", format!("{} dropped a token twice or dropped one it also handed back: {:?} / returned {:?}", op.text(), got_drops, returned));
+        }
     }
     // order of evictions (C03: oldest first)
     if matches!(op, OpKind::Ins { .. } | OpKind::SetMax(_) | OpKind::MutSet { .. } | OpKind::MutRep { .. }) {
